@@ -317,9 +317,36 @@ class _G:
             return [["ADDI", a, B, 4], ["ADDI", b, 0, r.randint(1, 200)], ["SW", b, a, 0], ["LW", c, a, 0], ["ADD", c, c, b]]
         if which == "load-into-store-data":
             return [["LW", a, B, 0], ["SW", a, B, 4], ["LW", b, B, 4], ["SB", b, B, 9]]
+        if which == "top-of-memory-through-negative-sum":
+            # rs1 + imm is negative before wrapping: the last words of the address space through x0 / a small base
+            t = r.choice([0, 0, 4, 8])
+            pre = [["ADDI", a, 0, t]] if t else []
+            base = a if t else 0
+            d = r.choice([b, c, 0])
+            return pre + [["ADDI", b, b, 77], ["SW", b, base, -t - 4], ["LW", c, base, -t - 4], ["SB", d, base, -t - 1],
+                          ["LBU", b, base, -t - 1], ["SH", c, base, -t - 8], ["LH", c, base, -t - 8]]
+        if which == "wrap-above-2^32-into-low-memory":
+            # 0xFFFFFFF0 + 16 wraps to address 0: below the first data address, a fault in both modes
+            return [["ADDI", a, 0, -16], r.choice([["LW", b, a, 16], ["SW", b, a, 20], ["LB", b, a, 2047]])]
+        if which == "store-of-zero-over-data":
+            return [["ADDI", a, 0, r.choice([-1, 0x7FF, 255])], ["SW", a, B, 0], ["SW", 0, B, 0], ["LW", b, B, 0], ["SW", a, B, 4],
+                    ["ADDI", c, 0, 0], ["SH", c, B, 4], ["SB", c, B, 7], ["LW", c, B, 4]]
+        if which == "upper-immediate-zero":
+            # results that are exactly 0 (lui 0 / auipc wrapping to 0 needs code at 0x1000: only lui here) into non-zero registers
+            return [["ADDI", a, 0, 5], ["LUI", a, 0], ["ADD", b, a, a], ["ADDI", c, 0, 9], ["SUB", c, c, c], ["OR", b, b, c]]
+        if which == "jalr-far-outside":
+            # leaves the instruction memory's address range altogether (>= 0x4000 or negative): the program is done
+            t = r.choice([4, 8, 0x7FF])
+            return [["LUI", a, t], ["JALR", b, a, r.choice([0, 4, -4])]] if r.random() < 0.6 else [["ADDI", a, 0, -8], ["JALR", b, a, 0]]
+        if which == "shift-amount-names-a-fresh-register":
+            # the shamt field equals the number of a register written just before (it is not a source register)
+            k = r.choice([x for x in self.pool if 0 < x < 32] or [3])
+            return [["ADDI", k, 0, 3], ["SLLI", a, b, k], ["ADDI", k, k, 1], ["NOP"], ["SRAI", c, b, k]]
         raise KeyError(which)
 
     MOTIFS = [
+        "top-of-memory-through-negative-sum", "wrap-above-2^32-into-low-memory", "store-of-zero-over-data",
+        "upper-immediate-zero", "jalr-far-outside", "shift-amount-names-a-fresh-register",
         "load-use-into-branch", "branch-in-branch-shadow", "jal-in-branch-shadow", "exit-ecall-in-branch-shadow",
         "dependent-pair-behind-ecall", "branch-operands-just-written", "sub-word-lanes-one-block",
         "jalr-link-equals-base", "store-data-and-base-just-written", "load-into-store-data",
